@@ -613,3 +613,135 @@ def javac_parse_only(work: pathlib.Path, files: Dict[str, str]) -> Dict[str, str
             errs.setdefault(back.get(path, path), f"line {ln}: {msg}")
     shutil.rmtree(d, ignore_errors=True)
     return errs
+
+
+# ---------------------------------------------------------------- render stream: hostile text in
+# every docutils construct the description renderers handle
+P_TEXT = [  # reStructuredText SOURCE of paragraph text (a backslash is written twice)
+    "a < b & c > d", "\"quoted\" and 'single'", "x*/y and /*z", "back\\\\slash", "]]> end",
+    "\\\\u002a/ esc", "ends with quote \"", "ends with backslash \\\\", "&amp; &lt; &#1;",
+    "<!-- c -->", "<c>tag</c>", "a\u2028b", "{@code x} @param y", "${x} #{y} %s", "it's",
+    "</summary>", "a && b || c",
+]
+P_LIT = [  # content of an inline literal (taken verbatim by docutils)
+    "a < b && c", "List<T>", "<something>", "x*/y", "/*x", "a\\b", "]]>", "\\u002a/", "\"q\"",
+    "it's", "x\"", "x\\", "&amp;", "a}b", "*/", "</c>", "<!--", "a\u2028b", "&", "<",
+]
+P_EMPH = ["a < b & c", "\"q\"", "x/ y", "]]>", "it's", "<em>"]
+
+RENDER_HEADER = '''from enum import Enum
+from typing import List, Optional
+from icontract import invariant, DBC
+from aas_core_meta.marker import (
+    abstract,
+    serialization,
+    implementation_specific,
+    verification,
+    constant_set,
+    non_mutating,
+)
+
+__version__ = "V1"
+
+__xml_namespace__ = "https://example.com/x"
+'''
+
+
+def render_model(block: str, field: Optional[str] = None, summary_only: bool = False,
+                 sig_block: Optional[str] = None) -> str:
+    """A minimal meta-model whose every description (meta-model, enumeration, literal,
+    verification function with :param:/:returns:, constant, class, property) carries
+    ``block`` (as the only paragraph when ``summary_only``)."""
+    doc = block if summary_only else "Represent something.\n\n" + block
+    body = sig_block if sig_block is not None else block
+    sig = (body if summary_only else "Check the text.\n\n" + body) + \
+        "\n\n:param text: " + (field or "to be checked") + "\n:returns: True if " + (field or "ok")
+    return f'''{doc!r}
+{RENDER_HEADER}
+
+class Kind(Enum):
+    {doc!r}
+
+    A_value = "a"
+    {doc!r}
+
+
+@verification
+@implementation_specific
+def check_it(text: str) -> bool:
+    {sig!r}
+    raise NotImplementedError()
+
+
+Some_constant: str = constant_str(value="x", description={doc!r})
+
+
+class Something(DBC):
+    {doc!r}
+
+    some_property: str
+    {doc!r}
+
+    def __init__(self, some_property: str) -> None:
+        self.some_property = some_property
+'''
+
+
+def render_cases(rng, extra: int = 0):
+    """[(construct, payload, model text)] — deterministic cross product (+ ``extra`` random
+    combinations of two constructs)."""
+    cases = []
+
+    def add(construct, payload, block, **kw):
+        cases.append((construct, payload, render_model(block, **kw)))
+
+    for p in P_TEXT:
+        add("paragraph", p, f"Text {p} here.")
+        add("paragraph-end", p, f"It says {p}")
+        add("summary", p, f"It says {p}", summary_only=True)
+        add("reference", p, f"See :class:`Something` {p} and :attr:`Something.some_property` "
+                            f"and :const:`Some_constant`.",
+            sig_block=f"See :paramref:`text` {p} and :class:`Something`.")
+        add("bullet-list", p, f"* first {p}\n* second item")
+        add("note", p, f".. note::\n\n    Mind {p} always.")
+        add("field", p, "Plain remark.", field=f"the {p} value")
+    for l in P_LIT:
+        add("literal", l, f"Use ``{l}`` here.")
+        add("literal-end", l, f"Use ``{l}``")
+        add("literal-summary", l, f"``{l}``", summary_only=True)
+        add("literal-in-list", l, f"* first item\n* second ``{l}``")
+        add("literal-in-note", l, f".. note::\n\n    Mind ``{l}`` always.")
+        add("literal-in-field", l, "Plain remark.", field=f"the ``{l}`` value")
+        add("literal-after-reference", l, f"See :class:`Something` and ``{l}``.")
+    for e in P_EMPH:
+        add("emphasis", e, f"It is *{e}* here.")
+        add("emphasis-in-list", e, f"* first *{e}*\n* second")
+    for b in ("**strong <x>**", "1. first <x>\n2. second", "Quote:\n\n    quoted <x>",
+              "Example::\n\n    code <x>", "`link <http://example.com/?a=1&b=2>`_",
+              "`link <http://example.com/?a=1&b=2>`__", "http://example.com/?a=1&b=2 is a link."):
+        add("other", b, b)
+    for _ in range(extra):
+        p, l, e = rng.choice(P_TEXT), rng.choice(P_LIT), rng.choice(P_EMPH)
+        block = rng.choice([
+            f"* {p}\n* ``{l}`` and *{e}*", f"Text {p} with ``{l}`` and *{e}*.",
+            f".. note::\n\n    * ``{l}``\n    * {p}", f"``{l}`` {p} ``{l}``",
+        ])
+        add("mixed", f"{p} | {l} | {e}", block, field=f"``{l}`` {p}")
+    return cases
+
+
+def csharp_block_xml_error(comment: str) -> Optional[str]:
+    """The /// block, prefixes removed and wrapped in a root element, parsed by expat."""
+    lines = []
+    for line in comment.split("\n"):
+        st = line.lstrip(" \t")
+        if not st.startswith("///"):
+            return f"line without /// prefix: {line[:60]!r}"
+        lines.append(st[3:])
+    if not encodable(comment):
+        return None
+    try:
+        xml.dom.minidom.parseString(("<root>" + "\n".join(lines) + "</root>").encode("utf-8"))
+        return None
+    except Exception as e:
+        return str(e)
